@@ -87,6 +87,8 @@ static const struct tpl_s tpls[] = {
 	{"sec1x6/lim2", 1, 6, {1, 2, 3, 4, 5, 6}, 1, 2},
 	{"sec1x6/unset", 1, 6, {1, 2, 3, 4, 5, 6}, 1, 0},
 	{"sec1x6/lim62", 1, 6, {1, 2, 3, 4, 5, 6}, 1, 62},
+	/* MAX-SIMUL:0 (limit -1 here, 0 means unset): every occurrence is reported as not run, nothing is ever watched */
+	{"sec1x3/lim0", 1, 3, {1, 2, 3}, 1, -1},
 };
 
 static size_t
@@ -127,13 +129,13 @@ tpl_body(const struct tpl_s *tp)
 		o += (size_t)snprintf(body + o, sizeof(body) - o, "RRULE:FREQ=SECONDLY;INTERVAL=%d;COUNT=%d\n", tp->interval, tp->nocc);
 	}
 	if (tp->limit) {
-		o += (size_t)snprintf(body + o, sizeof(body) - o, "X-ECHS-MAX-SIMUL:%d\n", tp->limit);
+		o += (size_t)snprintf(body + o, sizeof(body) - o, "X-ECHS-MAX-SIMUL:%d\n", tp->limit < 0 ? 0 : tp->limit);
 	}
 	return body;
 }
 #define NTPL	((int)(sizeof(tpls) / sizeof(*tpls)))
 
-static const unsigned users[] = {1000, 1001, 0};
+static unsigned users[] = {1000, 1001, 0};	/* --opt user2=N replaces the second (2000..2099 exist besides) */
 /* Task oids are 32-bit hashes of the UID.  For C11 the second UID is searched at start-up so that its hash
  * agrees with the first one's in the low 6..10 bits (the 16-slot table then has to grow by much more than
  * double), and the third so that it sits in another slot of the small table but has hash bits between
@@ -169,7 +171,7 @@ pick_colliding_uids(void)
 }
 
 /* ---------------- events ---------------- */
-enum {E_ADD, E_CANCEL, E_TICK_ONTIME, E_TICK_IDLE, E_TICK_LATE, E_EXIT, E_LIST, E_SCHED, E_ADDOWN, E_ADD2, E_TICK_EXACT, E_TICK_FAIL, E_STOP};
+enum {E_ADD, E_CANCEL, E_TICK_ONTIME, E_TICK_IDLE, E_TICK_LATE, E_EXIT, E_LIST, E_SCHED, E_ADDOWN, E_ADD2, E_TICK_EXACT, E_TICK_FAIL, E_STOP, E_TICKX};
 struct ev_s {
 	int kind;
 	int user;	/* index into users[] */
@@ -185,6 +187,19 @@ m_find(const char *uid)
 		if (M.t[i].present && !strcmp(M.t[i].uid, uid)) return &M.t[i];
 	}
 	return NULL;
+}
+
+/* tasks the model retired in the step under way: their last start is still to be matched */
+static int just_retired[M_MAXT];
+
+static struct mtask_s*
+m_find_started(const char *uid)
+{
+	struct mtask_s *t = m_find(uid);
+	for (int i = 0; t == NULL && i < M_MAXT; i++) {
+		if (just_retired[i] && !strcmp(M.t[i].uid, uid)) t = &M.t[i];
+	}
+	return t;
 }
 
 static struct mtask_s*
@@ -242,6 +257,7 @@ evname(char *buf, size_t bsz, const struct ev_s *e)
 	case E_TICK_LATE: snprintf(buf, bsz, "TICK(late-%d)", e->arg); break;
 	case E_EXIT: snprintf(buf, bsz, "EXIT(%d)", e->arg); break;
 	case E_STOP: snprintf(buf, bsz, "STOP+CONT(%d)", e->arg); break;
+	case E_TICKX: snprintf(buf, bsz, "TICK(on-time)+EXIT(%d) in one loop iteration", e->arg); break;
 	case E_LIST: snprintf(buf, bsz, "LIST(%u%s)", users[e->user], e->arg == 1 ? " as other" : ""); break;
 	case E_SCHED: snprintf(buf, bsz, "SCHED(%u)", users[e->user]); break;
 	}
@@ -251,7 +267,7 @@ evname(char *buf, size_t bsz, const struct ev_s *e)
 static const char*
 evkind(const struct ev_s *e)
 {
-	static const char *const k[] = {"ADD", "CANCEL", "TICK-ontime", "TICK-idle", "TICK-late", "EXIT", "LIST", "SCHED", "ADDOWN", "ADD2", "TICK-exact", "TICK-spawnfail", "STOP"};
+	static const char *const k[] = {"ADD", "CANCEL", "TICK-ontime", "TICK-idle", "TICK-late", "EXIT", "LIST", "SCHED", "ADDOWN", "ADD2", "TICK-exact", "TICK-spawnfail", "STOP", "TICK+EXIT"};
 	return k[e->kind];
 }
 
@@ -274,7 +290,7 @@ enabled(struct ev_s *ev, int max)
 		zombies += M.t[i].present && M.t[i].zombie;
 		armed += M.t[i].present && !M.t[i].zombie && M.t[i].next < M.t[i].nocc;
 	}
-	if (armed || zombies) {
+	if ((armed || zombies) && !(prop == 11 && narrow)) {
 		PUSH(E_TICK_ONTIME);
 	}
 	if (armed && prop == 12) {
@@ -312,6 +328,8 @@ enabled(struct ev_s *ev, int max)
 		int dup = 0;
 		for (int j = 0; j < i; j++) dup |= !strcmp(M.chld[j].uid, M.chld[i].uid) && M.chld[j].gen == M.chld[i].gen;
 		if (!dup || prop == 12) PUSH(E_EXIT, 0, 0, i);
+		/* the exit is noticed in the very iteration in which the next occurrence comes due */
+		if (!dup && armed && prop != 11) PUSH(E_TICKX, 0, 0, i);
 		/* deviation: the job is stopped and continued (job control, a debugger); it is still running */
 		if (!dup && prop == 12) PUSH(E_STOP, 0, 0, i);
 	}
@@ -343,10 +361,14 @@ enabled(struct ev_s *ev, int max)
 					PUSH(E_ADD, u, k, 5);
 					PUSH(E_ADD, u, k, 6);
 					PUSH(E_ADD, u, k, 7);
+					PUSH(E_ADD, u, k, 9);
 				} else {
 					PUSH(E_ADD, u, k, 7);
 					PUSH(E_ADD, u, k, 5);
 				}
+			} else if (prop == 11 && narrow) {
+				/* adds and listings only: room for the longer histories that the per-user checkpoint bookkeeping needs */
+				PUSH(E_ADD, u, k, 0);
 			} else {
 				PUSH(E_ADD, u, k, 0);
 				PUSH(E_ADD, u, k, 2);
@@ -359,18 +381,20 @@ enabled(struct ev_s *ev, int max)
 					PUSH(E_ADDOWN, u, k, 0, 5);
 				}
 			}
-			if (prop == 11 || m_find(uids[k])) {
+			if ((prop == 11 && !narrow) || (prop != 11 && m_find(uids[k]))) {
 				PUSH(E_CANCEL, u, k);
 			}
 		}
-		if (prop == 11) {
+		if (prop == 11 && narrow) {
+			PUSH(E_LIST, u, 0, 0);
+		} else if (prop == 11) {
 			PUSH(E_ADD2, u, 0, 0, 1);
 			PUSH(E_LIST, u, 0, 0);
 			PUSH(E_LIST, u, 0, 1);
 			PUSH(E_SCHED, u);
 		}
 	}
-	if (prop == 11) {
+	if (prop == 11 && !narrow) {
 		/* root may list */
 		PUSH(E_LIST, 2, 0, 0);
 	}
@@ -417,7 +441,7 @@ check_state(const struct ev_s *e, int spawn_from, const int *exp_spawn /* per mo
 	int got[M_MAXT] = {0};
 	for (int s = spawn_from; s < hx_nspawns; s++) {
 		struct hx_spawn_s *sp = &hx_spawns[s];
-		struct mtask_s *t = m_find(sp->uid);
+		struct mtask_s *t = m_find_started(sp->uid);
 		int ti = t ? (int)(t - M.t) : -1;
 		if (!sp->vtodo_ok) {
 			snprintf(shape, sizeof(shape), "after=%s", k);
@@ -441,7 +465,7 @@ check_state(const struct ev_s *e, int spawn_from, const int *exp_spawn /* per mo
 		} else {
 			if (sp->nd != exp_nd[ti]) {
 				snprintf(shape, sizeof(shape), "%s/limit=%s/after=%s", sp->nd ? "norun-but-below-limit" : "run-at-limit",
-					 t->limit == 0 ? "unset" : t->limit == 1 ? "1" : t->limit == 2 ? "2" : "N", k);
+					 t->limit < 0 ? "0" : t->limit == 0 ? "unset" : t->limit == 1 ? "1" : t->limit == 2 ? "2" : "N", k);
 				report("spawn-mode", shape, "task %s (limit %d, %d running): spawned %s", t->uid, t->limit, t->running,
 				       sp->nd ? "with the no-run flag" : "for real");
 			}
@@ -452,7 +476,8 @@ check_state(const struct ev_s *e, int spawn_from, const int *exp_spawn /* per mo
 		}
 	}
 	for (int i = 0; i < M_MAXT; i++) {
-		if (M.t[i].present && exp_spawn[i] > got[i]) {
+		/* (the model may have retired the task already: an unstarted last occurrence leaves nothing running) */
+		if (exp_spawn[i] > got[i]) {
 			snprintf(shape, sizeof(shape), "limit=%s/after=%s%s", M.t[i].limit == 0 ? "unset" : "set", k, hx_drift > 0 ? "/drift" : "");
 			report("spawn-missing", shape, "task %s has an occurrence due (+%.0f) but was not started", M.t[i].uid,
 			       M.t[i].occ[M.t[i].next > 0 ? M.t[i].next - 1 : 0] - HX_T0);
@@ -513,7 +538,9 @@ apply(const struct ev_s *e)
 	struct hx_reply_s rp;
 	char shape[96];
 	const char *k = evkind(e);
+	int tickx_hi = -1;
 
+	memset(just_retired, 0, sizeof(just_retired));
 	evname(name, sizeof(name), e);
 	snprintf(hist + strlen(hist), sizeof(hist) - strlen(hist), "%s%s", hist[0] ? " " : "", name);
 	vd_desc("%s", hist);
@@ -648,6 +675,24 @@ apply(const struct ev_s *e)
 		}
 		break;
 	}
+	case E_TICKX: {
+		/* model: the exit is seen first (libev invokes the child watcher before the periodic) */
+		int ci = e->arg;
+		int pid = M.chld[ci].pid;
+		struct mtask_s *t = m_find(M.chld[ci].uid);
+		for (int q = 0; q < hx_nchld; q++) {
+			if (hx_chld[q]->pid == pid) tickx_hi = q;
+		}
+		if (t && t->gen == M.chld[ci].gen && t->running > 0) t->running--;
+		memmove(&M.chld[ci], &M.chld[ci + 1], sizeof(M.chld[0]) * (size_t)(M.nchld - ci - 1));
+		M.nchld--;
+		if (tickx_hi < 0) {
+			snprintf(shape, sizeof(shape), "after=%s", k);
+			report("child-unwatched", shape, "execution %d is not watched by the daemon", pid);
+			break;
+		}
+	}
+		/*@fallthrough@*/
 	case E_TICK_ONTIME:
 	case E_TICK_IDLE:
 	case E_TICK_EXACT:
@@ -655,7 +700,7 @@ apply(const struct ev_s *e)
 	case E_TICK_LATE: {
 		double to;
 		double ear = m_earliest();
-		if (e->kind == E_TICK_ONTIME || e->kind == E_TICK_FAIL) {
+		if (e->kind == E_TICK_ONTIME || e->kind == E_TICK_FAIL || e->kind == E_TICKX) {
 			to = ear < 1e299 ? ear + 0.001 : hx_now + 1.0;
 			if (to <= hx_now) to = hx_now + 0.001;
 		} else if (e->kind == E_TICK_IDLE) {
@@ -691,12 +736,12 @@ apply(const struct ev_s *e)
 					if (e->kind == E_TICK_FAIL) {
 						/* the occurrence is used up, nothing comes into being */
 						t->fired = 1;
-						t->linger_ok = t->next >= t->nocc;
+						/* (if that was the last occurrence and nothing of the task runs, it has to go) */
 						any = 1;
 						continue;
 					}
 					if (!exp_spawn[i]) {
-						exp_nd[i] = t->limit && t->running >= t->limit;
+						exp_nd[i] = t->limit < 0 || (t->limit && t->running >= t->limit);
 					}
 					exp_spawn[i]++;
 					t->fired = 1;
@@ -708,7 +753,11 @@ apply(const struct ev_s *e)
 		}
 		hx_pipe_fail = e->kind == E_TICK_FAIL && e->arg == 0;
 		hx_spawn_fail = e->kind == E_TICK_FAIL && e->arg == 1;
-		hx_tick(tick_to);
+		if (tickx_hi >= 0) {
+			hx_tick_exit(tick_to, tickx_hi, 0);
+		} else {
+			hx_tick(tick_to);
+		}
 		hx_pipe_fail = hx_spawn_fail = 0;
 		break;
 	}
@@ -765,6 +814,7 @@ apply(const struct ev_s *e)
 		struct mtask_s *t = &M.t[i];
 		if (t->present && !t->zombie && t->next >= t->nocc && t->fired && t->running == 0 && !t->linger_ok) {
 			t->present = 0;
+			just_retired[i] = 1;
 		}
 	}
 	check_state(e, s0, exp_spawn, exp_nd);
@@ -846,16 +896,17 @@ canon(void)
 		for (int c = 0; c < hx_nchld; c++) h = hx_hash(h, tags[c], strlen(tags[c]) + 1);
 	}
 	h = hx_hash(h, &hx_sticky_nd, sizeof(hx_sticky_nd));
-	/* dirty users */
+	/* dirty users: the list as it is (order and repetitions decide how the index over it is linked), and what the
+	 * index answers for each user */
 	{
 		unsigned d[32];
 		size_t nd = ichkpnts < 32 ? ichkpnts : 32;
 		for (size_t i = 0; i < nd; i++) d[i] = chkpnts[i].key;
-		for (size_t i = 1; i < nd; i++) for (size_t j = i; j > 0 && d[j - 1] > d[j]; j--) { unsigned x = d[j]; d[j] = d[j - 1]; d[j - 1] = x; }
-		/* duplicates in the dirty list do not matter */
-		size_t w = 0;
-		for (size_t i = 0; i < nd; i++) if (!w || d[w - 1] != d[i]) d[w++] = d[i];
-		h = hx_hash(h, d, sizeof(unsigned) * w);
+		h = hx_hash(h, d, sizeof(unsigned) * nd);
+		for (size_t u = 0; u < sizeof(users) / sizeof(*users); u++) {
+			int a = chkpntedp(users[u]);
+			h = hx_hash(h, &a, sizeof(a));
+		}
 	}
 	h = hx_spool_hash(h);
 	/* the model (it is a function of the history; states are only merged when it agrees too) */
@@ -1021,6 +1072,47 @@ sweep_limit(int N)
 			       hx_nspawns == before ? "not started" : "started with the no-run flag");
 			return;
 		}
+	}
+	VT->traces++;
+}
+
+/* MAX-SIMUL:0: every occurrence is reported as not run; after the last one the task is gone */
+static void
+sweep_zero(void)
+{
+	char req[1024], st0[32];
+	struct hx_reply_s rp;
+	struct hx_task_s obs[HX_MAXTASKS];
+	const char *shape = "sweep/N=0";
+	size_t o = (size_t)snprintf(req, sizeof(req),
+		"BEGIN:VCALENDAR\nVERSION:2.0\nMETHOD:PUBLISH\nBEGIN:VEVENT\nUID:X\nSUMMARY:job\nDTSTART:%s\n"
+		"RRULE:FREQ=SECONDLY;COUNT=4\nX-ECHS-MAX-SIMUL:0\nEND:VEVENT\nEND:VCALENDAR\n", (tpl_stamp(st0, sizeof(st0), HX_T0 + 1), st0));
+
+	snprintf(hist, sizeof(hist), "ADD(X, SECONDLY x4, MAX-SIMUL:0) then 4 on-time ticks and an idle one");
+	vd_desc("%s", hist);
+	hx_request(&rp, 1000, req, o);
+	if (rp.nsucc != 1) {
+		report("reply", shape, "task with MAX-SIMUL:0 refused");
+		return;
+	}
+	for (int k = 1; k <= 4; k++) {
+		int before = hx_nspawns;
+		hx_tick(HX_T0 + k + 0.001);
+		VT->transitions++;
+		if (hx_nspawns != before + 1 || !hx_spawns[hx_nspawns - 1].nd) {
+			report("spawn-mode", shape, "limit 0: occurrence %d was %s", k, hx_nspawns == before ? "not reported at all" : "started for real");
+			return;
+		}
+	}
+	if (hx_nchld != 0) {
+		report("run-unsupervised", shape, "nothing runs for real, the daemon watches %d jobs", hx_nchld);
+		return;
+	}
+	hx_tick(HX_T0 + 10.0);
+	VT->transitions++;
+	if (hx_observe(obs) != 0) {
+		report("task-lingers", "exhausted/after=sweep-N=0", "the task has had its last occurrence and nothing of it runs, but it is still in the daemon's table");
+		return;
 	}
 	VT->traces++;
 }
@@ -1475,7 +1567,7 @@ enumerate(void)
 	if (vd_opt("t0", NULL)) {
 		hx_t0 = hx_now = strtod(vd_opt("t0", "0"), NULL);
 	}
-	hx_boot(1);
+	hx_boot(getenv("E2_LOG") == NULL);
 	collide = !strcmp(vd_opt("uids", "plain"), "collide");
 	if (prop == 11 || collide) {
 		pick_colliding_uids();
@@ -1486,6 +1578,7 @@ enumerate(void)
 	hx_drift = strtod(vd_opt("drift", "0"), NULL);
 	narrow = !strcmp(vd_opt("alpha", "full"), "narrow") ? 1 : !strcmp(vd_opt("alpha", "full"), "narrow2") ? 2 : 0;
 	if (collide) narrow = narrow ? narrow : 1;
+	users[1] = (unsigned)vd_opt_l("user2", 1001);
 	if (!strcmp(vd_opt("mode", "explore"), "long")) {
 		static const long NS[] = {65535, 65536, 65537, 200};
 		for (size_t q = 0; q < sizeof(NS) / sizeof(*NS); q++) {
@@ -1543,7 +1636,7 @@ enumerate(void)
 		return;
 	}
 	if (!strcmp(vd_opt("mode", "explore"), "sweep")) {
-		for (int N = 1; N <= 62 + 5; N++) {
+		for (int N = 0; N <= 62 + 5; N++) {
 			if (!vd_next()) continue;
 			vd_shape("sweep/N=%d", N);
 			memset(VT, 0, sizeof(*VT));
@@ -1551,7 +1644,9 @@ enumerate(void)
 			pid_t c = fork();
 			if (c == 0) {
 				prctl(PR_SET_PDEATHSIG, SIGKILL);
-				if (N <= 62) {
+				if (N == 0) {
+					sweep_zero();
+				} else if (N <= 62) {
 					sweep_limit(N);
 				} else if (N <= 64) {
 					sweep_unlimited(N == 63 ? 64 : 65);
@@ -1570,7 +1665,7 @@ enumerate(void)
 			vd_count("transitions", VT->transitions);
 			vd_count("traces", VT->traces);
 			vd_nontrivial();
-			if (N <= 62) vd_sample("MAX-SIMUL:%d: %d real starts, one refused, one exit, one real start", N, N);
+			if (N >= 1 && N <= 62) vd_sample("MAX-SIMUL:%d: %d real starts, one refused, one exit, one real start", N, N);
 		}
 		return;
 	}
